@@ -204,7 +204,7 @@ def run(job, streams=None):
         viol.append({"rule": rule, "sig": sig, "msg": msg + " " + ctx})
     holder = [tuple(ver)]
     traces = {}
-    steps = 0
+    faults = {}
     base, f, sok, cok = one_run(seed, sc, None, holder)
     if not (sok and cok):
         v("honest_failed", "rsa_kx", "honest RSA key exchange failed: %r" %
@@ -215,6 +215,7 @@ def run(job, streams=None):
         if not fired:
             continue
         probes[cls] = 1
+        faults["premaster_" + cls] = 1
         traces[cls] = tr
         if sok:
             v("malformed_premaster_accepted", cls, "server completed the "
@@ -232,17 +233,17 @@ def run(job, streams=None):
                   "%s in %s: %r vs %r" % (c, ref_cls, diff,
                                           {k: t[k] for k in diff},
                                           {k: ref[k] for k in diff}))
-    return _res(job, ch, sc, viol, probes, len(traces) >= 10, traces)
+    return _res(job, ch, sc, viol, probes, len(traces) >= 10, traces, faults)
 
 
-def _res(job, ch, sc, viol, probes, nontrivial, traces):
+def _res(job, ch, sc, viol, probes, nontrivial, traces, faults=None):
     key = hashlib.sha256(json.dumps(sc, sort_keys=True).encode()).hexdigest()
     h = hashlib.sha256()
     h.update(json.dumps(traces, sort_keys=True, default=str).encode())
     h.update(json.dumps([x["sig"] for x in viol]).encode())
     return {"violations": viol, "nontrivial": nontrivial, "key": key,
-            "digest": h.hexdigest(), "faults": {}, "probes": probes,
-            "steps": 0, "order": "",
+            "digest": h.hexdigest(), "faults": faults or {},
+            "probes": probes, "steps": 5 * (1 + len(traces)), "order": "",
             "states": ["%s/%s" % (sc["version"], sc["suite"])],
             "streams": ch.streams(), "inconclusive": False,
             "sample": {"scenario": sc,
